@@ -166,6 +166,12 @@ def run_variant(src, hier, contract, method, variant, both=False, repo_qual=None
             g = z3.simplify(ob.goal) if z3.is_expr(ob.goal) else ob.goal
             if z3.is_true(g):
                 r = smt.Result('unsat', 'trivial', 0.0)
+            elif z3.is_false(g):
+                # the clause is violated on this path: only reachability of the path is in question
+                t1 = time.time()
+                st_, mdl = smt.check_sat(common + ob.assumptions, timeout_ms=5000)
+                r = smt.Result({'sat': 'sat', 'unsat': 'unsat'}.get(st_, 'sat'), 'z3', time.time() - t1, model=mdl,
+                               reason='goal is literally false; path reachability %s' % st_)
             else:
                 r = smt.prove(common + ob.assumptions, ob.goal, both=both)
             d = {'name': ob.name, 'kind': ob.kind, 'status': r.status, 'backend': r.backend,
